@@ -52,59 +52,100 @@ theorem rdBodyV02Full_inv (h : Header) (f : Bytes) (e : Nat) (b : Body) (o : Nat
       · cases hr
     · cases hr
 
-/-- **Window = slice** at the body level, for every window the code accepts. -/
+/-- what a successful full read of the two blocks tells about the file -/
+theorem rdBlocks_full_inv (fps : Fps) (frames people points dims : Nat) (f : Bytes) (off : Nat) (b : Body) (o : Nat)
+    (hr : runBR (rdBlocks fps frames people points dims none none) f off = some (b, o)) :
+    off + frames * (people * points * dims * 4) + frames * (people * points * 4) ≤ f.length ∧
+    o = off + frames * (people * points * dims * 4) + frames * (people * points * 4) ∧
+    mkBody? fps frames people points dims
+      ((f.drop off).take (frames * (people * points * dims * 4)))
+      ((f.drop (off + frames * (people * points * dims * 4))).take (frames * (people * points * 4))) = some b := by
+  unfold rdBlocks at hr
+  rw [readFrames_full, readFrames_full] at hr
+  simp only [Prog.bind, runBR] at hr
+  split at hr
+  · rename_i hc1
+    split at hr
+    · rename_i hc2
+      rw [runBR_ofOption] at hr
+      generalize hm : mkBody? _ _ _ _ _ _ _ = mb at hr
+      cases mb with
+      | none => simp at hr
+      | some b' =>
+        simp only [Option.map_some, Option.some.injEq, Prod.mk.injEq] at hr
+        obtain ⟨rfl, rfl⟩ := hr
+        exact ⟨by omega, rfl, rfl⟩
+    · cases hr
+  · cases hr
+
+/-- **Window = slice** for the two blocks, for every window the code accepts. -/
+theorem rdBlocks_window (fps : Fps) (frames people points dims : Nat) (s e : Option Int) (f : Bytes) (off : Nat) (b : Body) (o : Nat)
+    (hfull : runBR (rdBlocks fps frames people points dims none none) f off = some (b, o)) (hv : WinValid frames s e) :
+    runBR (rdBlocks fps frames people points dims s e) f off = some (b.slice (winStart s) (winCount frames s e), o) := by
+  obtain ⟨hfit, rfl, hmk⟩ := rdBlocks_full_inv fps frames people points dims f off b o hfull
+  have hbf : b.people = people ∧ b.points = points ∧ b.dims = dims := by
+    unfold mkBody? at hmk
+    split at hmk
+    · cases hmk
+    · simp only [Option.some.injEq] at hmk; subst hmk; exact ⟨rfl, rfl, rfl⟩
+  unfold rdBlocks
+  rw [runBR_readFrames _ _ _ _ _ _ _ (by omega) hv]
+  rw [runBR_readFrames _ _ _ _ _ _ _ (by omega) hv]
+  rw [runBR_ofOption]
+  have hcount : winStart s + winCount frames s e ≤ frames := by have := hv.2; unfold winCount; omega
+  have := mkBody?_slice fps frames people points dims (winStart s) (winCount frames s e)
+    ((f.drop off).take (frames * (people * points * dims * 4)))
+    ((f.drop (off + frames * (people * points * dims * 4))).take (frames * (people * points * 4))) hcount
+  rw [hmk] at this
+  simp only [Option.map_some] at this
+  have hA : winStart s * (people * points * dims * 4) + winCount frames s e * (people * points * dims * 4)
+      ≤ frames * (people * points * dims * 4) := by
+    rw [← Nat.add_mul]; exact Nat.mul_le_mul_right _ hcount
+  have hB : winStart s * (people * points * 4) + winCount frames s e * (people * points * 4)
+      ≤ frames * (people * points * 4) := by
+    rw [← Nat.add_mul]; exact Nat.mul_le_mul_right _ hcount
+  have r1 : (((f.drop off).take (frames * (people * points * dims * 4))).drop (winStart s * (people * points * dims * 4))).take
+        (winCount frames s e * (people * points * dims * 4))
+      = (f.drop (off + winStart s * (people * points * dims * 4))).take (winCount frames s e * (people * points * dims * 4)) := by
+    rw [List.drop_take, List.take_take, List.drop_drop]
+    congr 1
+    · omega
+  have r2 : (((f.drop (off + frames * (people * points * dims * 4))).take (frames * (people * points * 4))).drop (winStart s * (people * points * 4))).take
+        (winCount frames s e * (people * points * 4))
+      = (f.drop (off + frames * (people * points * dims * 4) + winStart s * (people * points * 4))).take (winCount frames s e * (people * points * 4)) := by
+    rw [List.drop_take, List.take_take, List.drop_drop]
+    congr 1
+    · omega
+  rw [r1, r2] at this
+  simp only []
+  rw [this]
+  simp only [Option.map_some]
+
+/-- **Window = slice** at the v0.2 body level. -/
 theorem rdBodyV02_window (h : Header) (w : Window) (f : Bytes) (e : Nat) (b : Body) (o : Nat) (fps : F32) (se : Option Int × Option Int)
     (hfull : runBR (rdBodyV02Full h) f e = some (b, o)) (hfps : b.fps = .f32 fps)
     (hc : w.conflict = false) (hres : w.resolve fps = some se) (hv : WinValid b.frames se.1 se.2) :
     runBR (rdBodyV02 h w) f e = some (b.slice (winStart se.1) (winCount b.frames se.1 se.2), o) := by
   obtain ⟨fps', frames, people, dims, h1, h2, h3, hnd, hfit, rfl, hmk⟩ := rdBodyV02Full_inv h f e b o hfull
-  have hbf : b.frames = frames ∧ b.fps = .f32 fps' ∧ b.people = people ∧ b.points = h.totalPoints ∧ b.dims = dims := by
+  have hbf : b.frames = frames ∧ b.fps = .f32 fps' := by
     unfold mkBody? at hmk
     split at hmk
     · cases hmk
-    · simp only [Option.some.injEq] at hmk; subst hmk; exact ⟨rfl, rfl, rfl, rfl, rfl⟩
-  obtain ⟨hF, hfps', hP, hN, hD⟩ := hbf
+    · simp only [Option.some.injEq] at hmk; subst hmk; exact ⟨rfl, rfl⟩
+  obtain ⟨hF, hfps'⟩ := hbf
   rw [hfps'] at hfps; cases hfps
-  rw [hF] at hv
+  rw [hF] at hv ⊢
   unfold rdBodyV02
   rw [hc]
   simp only [Bool.false_eq_true, if_false]
   rw [runBR_bind_some h1, runBR_bind_some h2, runBR_bind_some h3, hnd, hres]
   simp only [ofOption_some_bind]
-  rw [runBR_readFrames _ _ _ _ _ _ _ (by omega) hv]
-  rw [runBR_readFrames _ _ _ _ _ _ _ (by omega) hv]
-  rw [runBR_ofOption]
-  have hvv := hv.2
-  have hcount : winStart se.1 + winCount frames se.1 se.2 ≤ frames := by unfold winCount; omega
-  have := mkBody?_slice (.f32 fps) frames people h.totalPoints dims (winStart se.1) (winCount frames se.1 se.2)
-    ((f.drop (e + 10)).take (frames * (people * h.totalPoints * dims * 4)))
-    ((f.drop (e + 10 + frames * (people * h.totalPoints * dims * 4))).take (frames * (people * h.totalPoints * 4))) hcount
-  rw [hmk] at this
-  simp only [Option.map_some] at this
-  -- the byte ranges read by the windowed reader are the sub-ranges of the full blocks
-  have hA : winStart se.1 * (people * h.totalPoints * dims * 4) + winCount frames se.1 se.2 * (people * h.totalPoints * dims * 4)
-      ≤ frames * (people * h.totalPoints * dims * 4) := by
-    rw [← Nat.add_mul]; exact Nat.mul_le_mul_right _ hcount
-  have hB : winStart se.1 * (people * h.totalPoints * 4) + winCount frames se.1 se.2 * (people * h.totalPoints * 4)
-      ≤ frames * (people * h.totalPoints * 4) := by
-    rw [← Nat.add_mul]; exact Nat.mul_le_mul_right _ hcount
-  have r1 : (((f.drop (e + 10)).take (frames * (people * h.totalPoints * dims * 4))).drop (winStart se.1 * (people * h.totalPoints * dims * 4))).take
-        (winCount frames se.1 se.2 * (people * h.totalPoints * dims * 4))
-      = (f.drop (e + 4 + 4 + 2 + winStart se.1 * (people * h.totalPoints * dims * 4))).take (winCount frames se.1 se.2 * (people * h.totalPoints * dims * 4)) := by
-    rw [List.drop_take, List.take_take, List.drop_drop]
-    congr 1
-    · omega
-  have r2 : (((f.drop (e + 10 + frames * (people * h.totalPoints * dims * 4))).take (frames * (people * h.totalPoints * 4))).drop (winStart se.1 * (people * h.totalPoints * 4))).take
-        (winCount frames se.1 se.2 * (people * h.totalPoints * 4))
-      = (f.drop (e + 4 + 4 + 2 + frames * (people * h.totalPoints * dims * 4) + winStart se.1 * (people * h.totalPoints * 4))).take (winCount frames se.1 se.2 * (people * h.totalPoints * 4)) := by
-    rw [List.drop_take, List.take_take, List.drop_drop]
-    congr 1
-    · omega
-  rw [r1, r2] at this
-  have e10 : e + 4 + 4 + 2 = e + 10 := by omega
-  rw [e10] at this
-  simp only []
-  rw [this, hF]
-  simp only [Option.map_some]
+  refine rdBlocks_window _ _ _ _ _ _ _ _ _ _ _ ?_ hv
+  unfold rdBlocks
+  rw [readFrames_full, readFrames_full]
+  simp only [Prog.bind, runBR]
+  rw [if_pos (by omega), if_pos (by omega), runBR_ofOption]
+  rw [hmk]
+  rfl
 
 end PoseVerif
